@@ -259,3 +259,76 @@ func TestBeyondTheHistoryWindow(t *testing.T) {
 		ev.Case(fmt.Sprintf("window/%d", n), true, "chain-longer-than-the-history-window")
 	})
 }
+
+// Blocks under unusual names and numbers: a root block committed under the empty hash (the zero Block, a generator's
+// block before it has a hash) and round numbers that jump by thousands between consecutive blocks. Chains are committed
+// in order, nothing is evicted (a handful of blocks and keys), so every lookup at every block must hit exactly what the
+// chain says. (A block cache that is given a new hash and committed a second time is not part of this: the unchanged
+// library ignores the second commit of an object.)
+func TestUnusualBlockNamesAndRounds(t *testing.T) {
+	ev.Rapid(t, 400, 5000)
+	rapid.Check(t, func(rt *rapid.T) {
+		sc := statecache.NewStateCache()
+		n := gen.Uniform(rt, 2, 7, "nblocks")
+		emptyRoot := gen.Chance(rt, 50, "emptyroot")
+		keys := []string{"a", "b"}
+		type blk struct {
+			hash  string
+			round int64
+			state map[string]string // visible content at this block ("" value = removed)
+		}
+		var chain []blk
+		round := int64(gen.Uniform(rt, 0, 3, "round0"))
+		var log []string
+		for i := 0; i < n; i++ {
+			b := blk{hash: fmt.Sprintf("N%d", i), round: round, state: map[string]string{}}
+			prev := ""
+			if i == 0 && emptyRoot {
+				b.hash = ""
+			}
+			if i > 0 {
+				prev = chain[i-1].hash
+				for k, v := range chain[i-1].state {
+					b.state[k] = v
+				}
+			}
+			bc := statecache.NewBlockCache(sc, statecache.Block{Round: b.round, Hash: b.hash, PrevHash: prev})
+			write := func(tag string) {
+				tc := statecache.NewTransactionCache(bc)
+				for _, k := range keys {
+					switch gen.Uniform(rt, 0, 3, "w") {
+					case 0:
+						v := fmt.Sprintf("%s%d%s", k, i, tag)
+						tc.Set(k, statecache.String(v))
+						b.state[k] = v
+						log = append(log, fmt.Sprintf("%q: %s=%s", b.hash, k, v))
+					case 1:
+						tc.Remove(k)
+						b.state[k] = ""
+						log = append(log, fmt.Sprintf("%q: remove %s", b.hash, k))
+					}
+				}
+				tc.Commit()
+			}
+			write("")
+			bc.Commit()
+			chain = append(chain, b)
+			// the next block's number: the next one, or thousands later
+			round += int64(gen.Pick(rt, []int{1, 1, 1, 2, 1999, 2000, 2001, 5000, 100000}, "dround"))
+		}
+		for q := gen.Uniform(rt, 4, 12, "nlookups"); q > 0; q-- {
+			b := gen.Pick(rt, chain, "at")
+			k := gen.Pick(rt, keys, "k")
+			v, ok := sc.Get(k, b.hash)
+			want := b.state[k]
+			if (want == "") != !ok || (ok && string(v.(statecache.String)) != want) {
+				rt.Fatalf("%v\nlookup %s@%q (round %d) = %v, %v; the chain says %q (everything is committed, nothing evicted)", log, k, b.hash, b.round, v, ok, want)
+			}
+		}
+		cls := []string{"unusual-names-and-rounds"}
+		if emptyRoot {
+			cls = append(cls, "root-block-under-the-empty-hash")
+		}
+		ev.Case(fmt.Sprint(log), emptyRoot && n >= 3, cls...)
+	})
+}
